@@ -2404,6 +2404,10 @@ impl LineBuf {
 								MotionKind::Onto(pos.get())
 							}
 						}
+						Direction::Backward if verb.is_none() => {
+							// A plain cursor move: in visual mode the selection keeps its anchor
+							MotionKind::On(pos.get())
+						}
 						Direction::Backward => {
 							let (start,end) = ordered(self.cursor.get(),pos.get());
 							MotionKind::Inclusive((start,end))
